@@ -3,6 +3,7 @@
 package dblookupext
 
 import (
+	"bytes"
 	"fmt"
 	"sync"
 
@@ -153,7 +154,17 @@ func (hr *historyRepository) recordMiniblock(blockHeaderHash []byte, blockHeader
 		return err
 	}
 
-	if hr.hasRecentlyInsertedMiniblockMetadata(miniblockHash, epoch) {
+	// The record is (re)written under the notifications mutex, so that it does not compete with the "patch()" operations
+	// performed when consuming notarization notifications.
+	hr.consumePendingNotificationsMutex.Lock()
+	defer hr.consumePendingNotificationsMutex.Unlock()
+
+	// The miniblock might have been recorded before: in a block that was dropped afterwards (fork), or in a previous epoch.
+	previousMetadata, errPrevious := hr.getMiniblockMetadataByMiniblockHash(miniblockHash)
+	hasPrevious := errPrevious == nil
+
+	isSameRecord := hasPrevious && previousMetadata.Epoch == epoch && bytes.Equal(previousMetadata.HeaderHash, blockHeaderHash)
+	if isSameRecord && hr.hasRecentlyInsertedMiniblockMetadata(miniblockHash, epoch) {
 		return nil
 	}
 
@@ -171,6 +182,14 @@ func (hr *historyRepository) recordMiniblock(blockHeaderHash []byte, blockHeader
 		HeaderNonce:        blockHeader.GetNonce(),
 		SourceShardID:      miniblock.GetSenderShardID(),
 		DestinationShardID: miniblock.GetReceiverShardID(),
+	}
+
+	if hasPrevious {
+		// The block coordinates are those of the most recently committed block, the "notarization (hyperblock) coordinates" are kept
+		miniblockMetadata.NotarizedAtSourceInMetaNonce = previousMetadata.NotarizedAtSourceInMetaNonce
+		miniblockMetadata.NotarizedAtSourceInMetaHash = previousMetadata.NotarizedAtSourceInMetaHash
+		miniblockMetadata.NotarizedAtDestinationInMetaNonce = previousMetadata.NotarizedAtDestinationInMetaNonce
+		miniblockMetadata.NotarizedAtDestinationInMetaHash = previousMetadata.NotarizedAtDestinationInMetaHash
 	}
 
 	err = hr.putMiniblockMetadata(miniblockHash, miniblockMetadata)
@@ -220,7 +239,22 @@ func (hr *historyRepository) GetMiniblockMetadataByTxHash(hash []byte) (*Miniblo
 		return nil, err
 	}
 
+	// Notifications received before the miniblock was recorded are still pending: they are consumed now,
+	// so that the lookup does not have to wait for the next notification in order to report them.
+	if hr.hasPendingNotificationsForMiniblock(miniblockHash) {
+		hr.consumePendingNotificationsWithLock()
+	}
+
 	return hr.getMiniblockMetadataByMiniblockHash(miniblockHash)
+}
+
+func (hr *historyRepository) hasPendingNotificationsForMiniblock(miniblockHash []byte) bool {
+	key := string(miniblockHash)
+	_, atSource := hr.pendingNotarizedAtSourceNotifications.Get(key)
+	_, atDestination := hr.pendingNotarizedAtDestinationNotifications.Get(key)
+	_, atBoth := hr.pendingNotarizedAtBothNotifications.Get(key)
+
+	return atSource || atDestination || atBoth
 }
 
 func (hr *historyRepository) putMiniblockMetadata(hash []byte, metadata *MiniblockMetadata) error {
